@@ -665,29 +665,44 @@ class HttpStreamSession:
         if self._state_bytes is None:
             return
 
-        reader: ValidatedReader | None = None
-        try:
-            reader = self._send_continuation(self._state_bytes)
+        token: bytes | None = self._state_bytes
+        while token is not None:
+            reader = self._send_continuation(token)
+            token = None
+            received: list[tuple[pa.RecordBatch, pa.KeyValueMetadata | None]] = []
+            error: RpcError | None = None
+            # Read the whole response before handing anything out.  Log batches
+            # that follow a data batch belong to the turn that produced it; a
+            # caller that stops iterating after that batch (break, close(),
+            # leaving the ``with`` block) would otherwise never see them, whereas
+            # a pipe session delivers them when it is closed.
             while True:
                 try:
                     batch, custom_metadata = reader.read_next_batch_with_custom_metadata()
                 except StopIteration:
                     break
 
-                # Check for continuation token (zero-row batch with STATE_KEY)
+                # Continuation token (zero-row batch with STATE_KEY)
                 if batch.num_rows == 0 and custom_metadata is not None:
-                    token = custom_metadata.get(STATE_KEY)
-                    if token is not None:
-                        if not isinstance(token, bytes):
-                            raise TypeError(f"Expected bytes for state token, got {type(token).__name__}")
-                        _drain_stream(reader)
-                        reader = self._send_continuation(token)
+                    next_token = custom_metadata.get(STATE_KEY)
+                    if next_token is not None:
+                        if not isinstance(next_token, bytes):
+                            raise TypeError(f"Expected bytes for state token, got {type(next_token).__name__}")
+                        token = next_token
                         continue
 
-                # Dispatch log/error batches
-                if _dispatch_log_or_error(batch, custom_metadata, self._on_log):
-                    continue
+                # Dispatch log/error batches; an error is raised once the
+                # batches received before it have been handed to the caller.
+                try:
+                    if _dispatch_log_or_error(batch, custom_metadata, self._on_log):
+                        continue
+                except RpcError as exc:
+                    error = exc
+                    _drain_stream(reader)
+                    break
+                received.append((batch, custom_metadata))
 
+            for batch, custom_metadata in received:
                 resolved_batch, resolved_cm = resolve_external_location(
                     batch, custom_metadata, self._external_config, self._on_log, reader.ipc_validation
                 )
@@ -695,10 +710,8 @@ class HttpStreamSession:
                 # The caller may have cancelled while the generator was
                 # suspended: do not follow the continuation token it holds.
                 self._check_not_cancelled()
-        except RpcError:
-            if reader is not None:
-                _drain_stream(reader)
-            raise
+            if error is not None:
+                raise error
 
     def next_with_token(self) -> tuple[AnnotatedBatch | None, bytes | None]:
         """Read one producer batch and surface the worker's continuation token.
